@@ -909,3 +909,409 @@ Proof.
   rewrite relabel_id. f_equal.
   generalize (full_log id_cb t). intro lg. induction lg as [|[[|] x] lg IH]; cbn; auto.
 Qed.
+
+(* ================================================================== 7. grouped sibling containers (Expr-style nodes) *)
+Section GTreeInd.
+  Variable P : gtree -> Prop.
+  Hypothesis HNode : forall l gs, Forall (Forall P) gs -> P (GNode l gs).
+  Fixpoint gtree_induction (t : gtree) : P t :=
+    match t with
+    | GNode l gs =>
+        HNode l gs
+          ((fix go (gs : list (list gtree)) : Forall (Forall P) gs :=
+              match gs with
+              | [] => Forall_nil _
+              | g :: r =>
+                  Forall_cons g
+                    ((fix go1 (g : list gtree) : Forall P g :=
+                        match g with
+                        | [] => Forall_nil P
+                        | c :: r1 => Forall_cons c (gtree_induction c) (go1 r1)
+                        end) g)
+                    (go r)
+              end) gs)
+    end.
+End GTreeInd.
+
+Lemma bind_assoc {A B C} (m : M A) (f : A -> M B) (g : B -> M C) :
+  bind (bind m f) g = bind m (fun a => bind (f a) g).
+Proof.
+  unfold bind. destruct m as [l1 a]. destruct (f a) as [l2 b]. destruct (g b) as [l3 c].
+  rewrite app_assoc. reflexivity.
+Qed.
+Lemma bind_ext {A B} (m : M A) (f g : A -> M B) : (forall a, f a = g a) -> bind m f = bind m g.
+Proof. intro H. unfold bind. destruct m as [l a]. rewrite H. reflexivity. Qed.
+Lemma bind_ret_r {A} (m : M A) : bind m ret = m.
+Proof. unfold bind, ret. destruct m. rewrite app_nil_r. reflexivity. Qed.
+
+Lemma aus_nonempty_last {A} (f : A -> M tnr) a b l :
+  l <> [] -> apply_until_stop_from f a l = apply_until_stop_from f b l.
+Proof. destruct l; [contradiction|reflexivity]. Qed.
+
+Lemma aus_app {A} (f : A -> M tnr) a b : forall last, last <> Stop ->
+  apply_until_stop_from f last (a ++ b) =
+  bind (apply_until_stop_from f last a)
+       (fun t => match t with Stop => ret Stop | _ => apply_until_stop_from f t b end).
+Proof.
+  induction a as [|x a IH]; intros last Hl.
+  - cbn [app apply_until_stop_from]. rewrite bind_ret_l. destruct last; try reflexivity. contradiction.
+  - cbn [app apply_until_stop_from]. rewrite bind_assoc. apply bind_ext. intros t.
+    destruct t; try (apply IH; discriminate). rewrite bind_ret_l. reflexivity.
+Qed.
+
+(* the tuple-of-containers walk is the plain left-to-right walk over all children iff no non-empty
+   container is followed only by empty ones *)
+Theorem apply_groups_flat {A} (f : A -> M tnr) gs :
+  groups_ok gs = true -> apply_groups f gs = apply_until_stop f (concat gs).
+Proof.
+  induction gs as [|g rest IH]; [reflexivity|].
+  intro H. cbn [apply_groups groups_ok concat] in *.
+  destruct rest as [|g1 rr]; [cbn; rewrite app_nil_r; reflexivity|].
+  apply andb_true_iff in H as [H1 H2]. specialize (IH H1).
+  unfold apply_until_stop. rewrite aus_app by discriminate.
+  fold (apply_groups f). apply orb_true_iff in H2 as [H2|H2].
+  - apply bind_ext. intros t.
+    assert (N : concat (g1 :: rr) <> []) by (destruct (concat (g1 :: rr)); [discriminate|congruence]).
+    destruct t; cbn [visit_sibling]; try reflexivity; rewrite IH; unfold apply_until_stop;
+      apply aus_nonempty_last; exact N.
+  - destruct g; [|discriminate]. cbn [apply_until_stop_from]. rewrite !bind_ret_l. cbn [visit_sibling].
+    exact IH.
+Qed.
+
+Lemma aus_map_flatten (kg : gtree -> M tnr) (kf : tree -> M tnr) g :
+  Forall (fun c => kg c = kf (flatten c)) g ->
+  forall last, apply_until_stop_from kg last g = apply_until_stop_from kf last (map flatten g).
+Proof.
+  induction 1 as [|c r Hc _ IH]; intro last; [reflexivity|].
+  cbn [map apply_until_stop_from]. rewrite Hc. apply bind_ext. intros t. destruct t; try apply IH. reflexivity.
+Qed.
+Lemma apply_groups_ext {A} (f g : A -> M tnr) gs :
+  Forall (Forall (fun c => f c = g c)) gs -> apply_groups f gs = apply_groups g gs.
+Proof.
+  induction 1 as [|x r Hx _ IH]; [reflexivity|].
+  assert (E : forall last, apply_until_stop_from f last x = apply_until_stop_from g last x).
+  { clear -Hx. induction Hx as [|c r Hc _ IH]; intro last; [reflexivity|].
+    cbn [apply_until_stop_from]. rewrite Hc. apply bind_ext. intros t. destruct t; try apply IH. reflexivity. }
+  cbn [apply_groups]. unfold apply_until_stop. rewrite E. destruct r; [reflexivity|].
+  apply bind_ext. intros t. destruct t; cbn [visit_sibling]; try reflexivity; exact IH.
+Qed.
+
+Lemma concat_map_flatten gs : flat_map (map flatten) gs = map flatten (concat gs).
+Proof. induction gs as [|g r IH]; [reflexivity|]. cbn. rewrite IH, map_app. reflexivity. Qed.
+
+Lemma gapply_groups_as_flat (kg : gtree -> M tnr) (kf : tree -> M tnr) gs :
+  groups_ok gs = true ->
+  Forall (Forall (fun c => kg c = kf (flatten c))) gs ->
+  apply_groups kg gs = apply_until_stop kf (flat_map (map flatten) gs).
+Proof.
+  intros Hok H. rewrite apply_groups_flat by exact Hok. rewrite concat_map_flatten.
+  unfold apply_until_stop. apply aus_map_flatten.
+  clear Hok. induction H as [|g r Hg _ IH]; [constructor|]. cbn. apply Forall_app. split; assumption.
+Qed.
+
+Lemma well_grouped_inv l gs :
+  well_grouped (GNode l gs) = true ->
+  groups_ok gs = true /\ Forall (Forall (fun c => well_grouped c = true)) gs.
+Proof.
+  cbn [well_grouped]. intro H. apply andb_true_iff in H as [H1 H2]. split; [exact H1|].
+  rewrite forallb_forall in H2. apply Forall_forall. intros g Hg. apply Forall_forall. intros c Hc.
+  specialize (H2 g Hg). rewrite forallb_forall in H2. exact (H2 c Hc).
+Qed.
+
+Lemma Forall2_mp {A} (P Q : A -> Prop) gs :
+  Forall (Forall (fun c => P c -> Q c)) gs -> Forall (Forall P) gs -> Forall (Forall Q) gs.
+Proof.
+  induction 1 as [|g r Hg _ IH]; intro H; [constructor|]. inversion H; subst. constructor; [|apply IH; assumption].
+  clear -Hg H2. induction Hg as [|c r Hc _ IH]; [constructor|]. inversion H2; subst. constructor; auto.
+Qed.
+
+(* on a well-grouped Expr-style tree apply and visit are the flat-tree apply and visit, hence satisfy
+   apply_contract / visit_contract *)
+Theorem gapply_well_grouped f t : well_grouped t = true -> gapply f t = apply f (flatten t).
+Proof.
+  induction t as [l gs IH] using gtree_induction. intro W. destruct (well_grouped_inv l gs W) as [Hok Hw].
+  cbn [gapply apply flatten]. apply bind_ext. intros r. destruct r; cbn [visit_children]; try reflexivity.
+  apply gapply_groups_as_flat; [exact Hok|]. exact (Forall2_mp _ _ gs IH Hw).
+Qed.
+Theorem gvisit_well_grouped fd fu t : well_grouped t = true -> gvisit fd fu t = visit fd fu (flatten t).
+Proof.
+  induction t as [l gs IH] using gtree_induction. intro W. destruct (well_grouped_inv l gs W) as [Hok Hw].
+  cbn [gvisit visit flatten]. apply bind_ext. intros r.
+  assert (E : apply_groups (gvisit fd fu) gs = apply_until_stop (visit fd fu) (flat_map (map flatten) gs))
+    by (apply gapply_groups_as_flat; [exact Hok|exact (Forall2_mp _ _ gs IH Hw)]).
+  destruct r; cbn [visit_children]; rewrite ?E; reflexivity.
+Qed.
+
+(* ------------------------------------------------------------------ map_groups *)
+Lemma tr_eta {A} (r : Tr A) : mkT (data r) (changed r) (rec r) = r.
+Proof. destruct r; reflexivity. Qed.
+
+Lemma mus_tr_shift {A} (f : A -> M (Tr A)) l : forall last tr,
+  map_until_stop_from f last tr l =
+  (fst (map_until_stop_from f last false l),
+   mkT (data (snd (map_until_stop_from f last false l)))
+       (tr || changed (snd (map_until_stop_from f last false l)))
+       (rec (snd (map_until_stop_from f last false l)))).
+Proof.
+  induction l as [|x l IH]; intros last tr.
+  - cbn. rewrite orb_false_r. reflexivity.
+  - destruct last; cbn [map_until_stop_from].
+    3:{ rewrite (IH Stop tr). destruct (map_until_stop_from f Stop false l) as [lr rr].
+        cbn [bind ret fst snd data changed rec]. reflexivity. }
+    all: destruct (f x) as [lx rx]; cbn [bind];
+         rewrite (IH (rec rx) (tr || changed rx)), (IH (rec rx) (false || changed rx));
+         destruct (map_until_stop_from f (rec rx) false l) as [lr rr];
+         cbn [bind ret fst snd data changed rec]; f_equal; f_equal; btauto.
+Qed.
+
+Lemma mus_nonempty_last {A} (f : A -> M (Tr A)) a b tr l :
+  l <> [] -> a <> Stop -> b <> Stop -> map_until_stop_from f a tr l = map_until_stop_from f b tr l.
+Proof. destruct l; [contradiction|]. destruct a, b; try contradiction; reflexivity. Qed.
+
+Lemma mus_app {A} (f : A -> M (Tr A)) a b : forall last tr,
+  map_until_stop_from f last tr (a ++ b) =
+  bind (map_until_stop_from f last tr a) (fun ra =>
+  bind (map_until_stop_from f (rec ra) (changed ra) b) (fun rb =>
+  ret (mkT (data ra ++ data rb) (changed rb) (rec rb)))).
+Proof.
+  induction a as [|x a IH]; intros last tr.
+  - cbn [app map_until_stop_from]. rewrite bind_ret_l. cbn [data changed rec app].
+    rewrite <- (bind_ret_r (map_until_stop_from f last tr b)) at 1. apply bind_ext. intros rb.
+    rewrite tr_eta. reflexivity.
+  - destruct last; cbn [app map_until_stop_from].
+    3:{ rewrite IH, !bind_assoc. apply bind_ext. intros ra. rewrite bind_ret_l, bind_assoc.
+        cbn [data changed rec]. apply bind_ext. intros rb. rewrite bind_ret_l. reflexivity. }
+    all: rewrite !bind_assoc; apply bind_ext; intros rx; rewrite IH, !bind_assoc; apply bind_ext; intros ra;
+         rewrite bind_ret_l, bind_assoc; cbn [data changed rec]; apply bind_ext; intros rb;
+         rewrite bind_ret_l; reflexivity.
+Qed.
+
+(* the tuple-of-containers map is the plain left-to-right map over all children (same invocations,
+   same children, same flag, same final directive) iff no non-empty container is followed only by empty ones *)
+Theorem map_groups_flat {A} (f : A -> M (Tr A)) gs :
+  groups_ok gs = true ->
+  let X := map_groups f gs in
+  let Y := map_until_stop_and_collect f (concat gs) in
+  fst X = fst Y /\ concat (data (snd X)) = data (snd Y) /\
+  changed (snd X) = changed (snd Y) /\ rec (snd X) = rec (snd Y).
+Proof.
+  induction gs as [|g rest IH]; [cbn; auto|].
+  intro H. cbv zeta. cbn [map_groups groups_ok concat] in *.
+  destruct rest as [|g1 rr].
+  - unfold map_until_stop_and_collect. cbn [concat]. rewrite app_nil_r.
+    destruct (map_until_stop_from f Continue false g) as [l0 r0]. cbn. rewrite !app_nil_r. auto.
+  - apply andb_true_iff in H as [H1 H2]. specialize (IH H1). cbv zeta in IH.
+    fold (map_groups f) in *.
+    unfold map_until_stop_and_collect in *. rewrite mus_app.
+    destruct (map_until_stop_from f Continue false g) as [l0 r0] eqn:E0. cbn [bind].
+    destruct (rec r0) eqn:Er.
+    3:{ rewrite mus_stop. cbn. rewrite !app_nil_r. auto. }
+    all: rewrite mus_tr_shift.
+    2:{ assert (EZ : map_until_stop_from f Jump false (concat (g1 :: rr)) =
+                     map_until_stop_from f Continue false (concat (g1 :: rr))).
+        { apply orb_true_iff in H2 as [H2|H2].
+          - apply mus_nonempty_last; try discriminate.
+            destruct (concat (g1 :: rr)); [discriminate|congruence].
+          - destruct g; [|discriminate]. cbn in E0. injection E0 as <- <-. discriminate. }
+        rewrite EZ. clear EZ.
+        destruct IH as (I1 & I2 & I3 & I4);
+        destruct (map_groups f (g1 :: rr)) as [l1 r1];
+        destruct (map_until_stop_from f Continue false (concat (g1 :: rr))) as [l2 r2];
+        cbn [bind ret fst snd data changed rec concat] in *; subst;
+        rewrite !app_nil_r, I2, I3, I4, orb_comm; auto. }
+    destruct IH as (I1 & I2 & I3 & I4);
+    destruct (map_groups f (g1 :: rr)) as [l1 r1];
+    destruct (map_until_stop_from f Continue false (concat (g1 :: rr))) as [l2 r2];
+    cbn [bind ret fst snd data changed rec concat] in *; subst;
+    rewrite !app_nil_r, I2, I3, I4, orb_comm; auto.
+Qed.
+
+(* ------------------------------------------------------------------ rewriting well-grouped Expr-style trees *)
+Lemma gtp_unfold fu l' gs' c r :
+  transform_parent (mkT (GNode l' gs') c r) (grcall PUp fu) =
+  match r with
+  | Continue => let '(l'', ch2, r2) := fu l' in ([(PUp, l')], mkT (GNode l'' gs') (ch2 || c) r2)
+  | _ => ([], mkT (GNode l' gs') c r)
+  end.
+Proof.
+  destruct r; try reflexivity.
+  unfold transform_parent, or_flag, grcall, bind, ret. cbn [rec data changed].
+  destruct (fu l') as [[l'' ch2] r2]. reflexivity.
+Qed.
+
+Lemma gmco_unfold kk l gs :
+  gmap_children_on kk l gs =
+  let (lc, rc) := map_groups kk gs in (lc, mkT (GNode l (data rc)) (changed rc) (rec rc)).
+Proof.
+  unfold gmap_children_on, bind, ret. destruct (map_groups kk gs) as [lc rc]. rewrite app_nil_r. reflexivity.
+Qed.
+
+Lemma gtdu_unfold fd fu l gs :
+  gtransform_down_up fd fu (GNode l gs) =
+  let '(l', ch, r) := fd l in
+  match r with
+  | Continue =>
+      let (lc, rc) := gmap_children_on (gtransform_down_up fd fu) l' gs in
+      let (lu, ru) := transform_parent (mkT (data rc) (changed rc || ch) (rec rc)) (grcall PUp fu) in
+      ((PDown, l) :: lc ++ lu, ru)
+  | Jump =>
+      let (lu, ru) := transform_parent (mkT (GNode l' gs) ch Continue) (grcall PUp fu) in
+      ((PDown, l) :: lu, ru)
+  | Stop => ([(PDown, l)], mkT (GNode l' gs) ch Stop)
+  end.
+Proof.
+  cbn [gtransform_down_up]. destruct (fd l) as [[l' ch] r].
+  destruct r; unfold transform_children, or_flag, bind, ret; cbn [rec data changed].
+  - destruct (gmap_children_on (gtransform_down_up fd fu) l' gs) as [lc rc].
+    rewrite app_nil_r.
+    destruct (transform_parent _ _) as [lu ru]. reflexivity.
+  - destruct (transform_parent _ _) as [lu ru]. reflexivity.
+  - reflexivity.
+Qed.
+
+Lemma mus_map_flatten (kg : gtree -> M (Tr gtree)) (kf : tree -> M (Tr tree)) g :
+  Forall (fun c => gres_rel (kg c) (kf (flatten c))) g ->
+  forall last tr,
+    let X := map_until_stop_from kg last tr g in
+    let Y := map_until_stop_from kf last tr (map flatten g) in
+    fst X = fst Y /\ map flatten (data (snd X)) = data (snd Y) /\
+    changed (snd X) = changed (snd Y) /\ rec (snd X) = rec (snd Y).
+Proof.
+  induction 1 as [|c r (C1 & C2 & C3 & C4) _ IH]; intros last tr; [cbn; auto|].
+  cbv zeta. destruct last; cbn [map map_until_stop_from].
+  3:{ rewrite !mus_stop. cbn. auto. }
+  all: destruct (kg c) as [lc rc]; destruct (kf (flatten c)) as [lc' rc']; cbn [fst snd bind] in *; subst lc';
+       rewrite C3, C4; specialize (IH (rec rc') (tr || changed rc')); cbv zeta in IH;
+       destruct IH as (I1 & I2 & I3 & I4);
+       destruct (map_until_stop_from kg (rec rc') (tr || changed rc') r) as [lr rr];
+       destruct (map_until_stop_from kf (rec rc') (tr || changed rc') (map flatten r)) as [lr' rr'];
+       cbn [fst snd bind ret data changed rec map] in *; subst; rewrite C2, I2; auto.
+Qed.
+
+Lemma Forall_concat {A} (P : A -> Prop) gs : Forall (Forall P) gs -> Forall P (concat gs).
+Proof. induction 1 as [|g r Hg _ IH]; [constructor|]. cbn. apply Forall_app. split; assumption. Qed.
+
+Theorem gtdu_well_grouped fd fu t :
+  well_grouped t = true ->
+  gres_rel (gtransform_down_up fd fu t) (transform_down_up IVec fd fu (flatten t)).
+Proof.
+  induction t as [l gs IH] using gtree_induction. intro W. destruct (well_grouped_inv l gs W) as [Hok Hw].
+  pose proof (Forall2_mp _ _ gs IH Hw) as IH'. clear IH Hw.
+  cbn [flatten]. rewrite gtdu_unfold, tdu_unfold. unfold gres_rel.
+  destruct (fd l) as [[l' ch] r]. destruct r.
+  - rewrite gmco_unfold, mco_vec_unfold.
+    destruct (map_groups_flat (gtransform_down_up fd fu) gs Hok) as (G1 & G2 & G3 & G4).
+    pose proof (mus_map_flatten _ _ (concat gs) (Forall_concat _ gs IH') Continue false) as F.
+    cbv zeta in F. destruct F as (F1 & F2 & F3 & F4).
+    unfold map_until_stop_and_collect in *. rewrite concat_map_flatten.
+    destruct (map_groups (gtransform_down_up fd fu) gs) as [lc rc].
+    destruct (map_until_stop_from (gtransform_down_up fd fu) Continue false (concat gs)) as [lm rm].
+    destruct (map_until_stop_from (transform_down_up IVec fd fu) Continue false (map flatten (concat gs))) as [lf rf].
+    cbn [fst snd data changed rec] in *. subst lc lm.
+    rewrite gtp_unfold, tp_unfold. rewrite G4, F4, G3, F3.
+    assert (D : flat_map (map flatten) (data rc) = data rf)
+      by (rewrite concat_map_flatten, G2; exact F2).
+    destruct (rec rf); [destruct (fu l') as [[l'' ch2] r2]|..]; cbn [fst snd data changed rec flatten];
+      rewrite D; auto.
+  - rewrite gtp_unfold, tp_unfold. destruct (fu l') as [[l'' ch2] r2]. cbn. auto.
+  - cbn. auto.
+Qed.
+
+Lemma gtd_unfold f l gs :
+  gtransform_down f (GNode l gs) =
+  let '(l', ch, r) := f l in
+  match r with
+  | Continue =>
+      let (lc, rc) := gmap_children_on (gtransform_down f) l' gs in
+      ((PDown, l) :: lc, mkT (data rc) (changed rc || ch) (rec rc))
+  | Jump => ([(PDown, l)], mkT (GNode l' gs) ch Continue)
+  | Stop => ([(PDown, l)], mkT (GNode l' gs) ch Stop)
+  end.
+Proof.
+  cbn [gtransform_down]. destruct (f l) as [[l' ch] r].
+  destruct r; unfold transform_children, or_flag, bind, ret; cbn [rec data changed]; try reflexivity.
+  destruct (gmap_children_on (gtransform_down f) l' gs) as [lc rc]. rewrite app_nil_r. reflexivity.
+Qed.
+Lemma gtu_unfold f l gs :
+  gtransform_up f (GNode l gs) =
+  let (lc, rc) := gmap_children_on (gtransform_up f) l gs in
+  let (lu, ru) := transform_parent rc (grcall PUp f) in (lc ++ lu, ru).
+Proof.
+  cbn [gtransform_up]. unfold bind.
+  destruct (gmap_children_on (gtransform_up f) l gs) as [lc rc]. reflexivity.
+Qed.
+
+(* common step: children of a well-grouped node, grouped vs flat *)
+Lemma gchildren_rel (kg : gtree -> M (Tr gtree)) (kf : tree -> M (Tr tree)) l gs :
+  groups_ok gs = true ->
+  Forall (Forall (fun c => gres_rel (kg c) (kf (flatten c)))) gs ->
+  gres_rel (gmap_children_on kg l gs) (map_children_on IVec kf l (flat_map (map flatten) gs)).
+Proof.
+  intros Hok IH'. rewrite gmco_unfold, mco_vec_unfold. unfold gres_rel.
+  destruct (map_groups_flat kg gs Hok) as (G1 & G2 & G3 & G4).
+  pose proof (mus_map_flatten _ _ (concat gs) (Forall_concat _ gs IH') Continue false) as F.
+  cbv zeta in F. destruct F as (F1 & F2 & F3 & F4).
+  unfold map_until_stop_and_collect in *. rewrite concat_map_flatten.
+  destruct (map_groups kg gs) as [lc rc].
+  destruct (map_until_stop_from kg Continue false (concat gs)) as [lm rm].
+  destruct (map_until_stop_from kf Continue false (map flatten (concat gs))) as [lf rf].
+  cbn [fst snd data changed rec flatten] in *. subst lc lm.
+  rewrite concat_map_flatten, G2, F2, G3, F3, G4, F4. auto.
+Qed.
+
+Theorem gtd_well_grouped f t :
+  well_grouped t = true -> gres_rel (gtransform_down f t) (transform_down IVec f (flatten t)).
+Proof.
+  induction t as [l gs IH] using gtree_induction. intro W. destruct (well_grouped_inv l gs W) as [Hok Hw].
+  pose proof (Forall2_mp _ _ gs IH Hw) as IH'. clear IH Hw.
+  cbn [flatten]. rewrite gtd_unfold, td_unfold.
+  destruct (f l) as [[l' ch] r]. destruct r; [|unfold gres_rel; cbn; auto ..].
+  destruct (gchildren_rel _ _ l' gs Hok IH') as (A & B & C & D).
+  destruct (gmap_children_on (gtransform_down f) l' gs) as [lc rc].
+  destruct (map_children_on IVec (transform_down IVec f) l' (flat_map (map flatten) gs)) as [lf rf].
+  unfold gres_rel. cbn [fst snd data changed rec] in *. subst. rewrite B, C, D. auto.
+Qed.
+
+Theorem gtu_well_grouped f t :
+  well_grouped t = true -> gres_rel (gtransform_up f t) (transform_up IVec f (flatten t)).
+Proof.
+  induction t as [l gs IH] using gtree_induction. intro W. destruct (well_grouped_inv l gs W) as [Hok Hw].
+  pose proof (Forall2_mp _ _ gs IH Hw) as IH'. clear IH Hw.
+  cbn [flatten]. rewrite gtu_unfold, tu_unfold.
+  pose proof (gchildren_rel _ _ l gs Hok IH') as R.
+  rewrite gmco_unfold, mco_vec_unfold in *.
+  destruct (map_groups (gtransform_up f) gs) as [lc rc].
+  destruct (map_until_stop_from (transform_up IVec f) Continue false (flat_map (map flatten) gs)) as [lf rf].
+  destruct R as (A & B & C & D). cbn [fst snd data changed rec flatten] in *. subst lc.
+  injection B as B. rewrite gtp_unfold, tp_unfold, C, D. unfold gres_rel.
+  destruct (rec rf); [destruct (f l) as [[l'' ch2] r2]|..]; cbn [fst snd data changed rec flatten]; rewrite ?B; auto.
+Qed.
+
+(* ------------------------------------------------------------------ ... and the contract FAILS on trees that are not
+   well grouped.  Witness: CASE WHEN 95 THEN <410> END (no base expression, no ELSE):
+   GNode 500 [[] ; [GNode 95 []] ; [GNode 410 []] ; []].  f_up answers Jump on the THEN branch (410), the last
+   child, so by the TreeNodeRecursion documentation f_up of the parent must be bypassed and the walk ends with
+   Jump; the empty ELSE container resets the Jump to Continue and f_up(500) is invoked. *)
+Definition case_no_else : gtree := GNode 500 [[]; [GNode 95 []]; [GNode 410 []]; []].
+Definition up_jump_410 : vcb := vtab [(410, Jump)].
+Definition rw_up_jump_410 : rcb := rtab [(410, (410, false, Jump))].
+
+Theorem trailing_empty_container_refuted :
+  exists (t : gtree) (fd fu : vcb) (rd ru : rcb),
+    well_grouped t = false /\
+    (* what the documented contract prescribes (linear scan of the flat tree) *)
+    s_log (scan_tree (vlift fd) (vlift fu) (flatten t)) =
+      [(PDown, 500); (PDown, 95); (PUp, 95); (PDown, 410); (PUp, 410)] /\
+    tnr_of (s_mode (scan_tree (vlift fd) (vlift fu) (flatten t))) = Jump /\
+    (* what the container composition does: f_up(500) is invoked and the walk ends with Continue *)
+    gvisit fd fu t =
+      ([(PDown, 500); (PDown, 95); (PUp, 95); (PDown, 410); (PUp, 410); (PUp, 500)], Continue) /\
+    fst (gtransform_down_up rd ru t) =
+      [(PDown, 500); (PDown, 95); (PUp, 95); (PDown, 410); (PUp, 410); (PUp, 500)] /\
+    s_log (scan_tree rd ru (flatten t)) = [(PDown, 500); (PDown, 95); (PUp, 95); (PDown, 410); (PUp, 410)] /\
+    (* apply_children: "Ok(TreeNodeRecursion) from the last invocation of f" would be Jump *)
+    gapply_children (gvcall PDown fu) t = ([(PDown, 95); (PDown, 410)], Continue).
+Proof.
+  exists case_no_else, (vtab []), up_jump_410, id_cb, rw_up_jump_410.
+  vm_compute. repeat split.
+Qed.
